@@ -119,6 +119,37 @@ func runC09(c *core.Ctx) {
 		}
 	}
 	c.Sample(sample(t, map[string]interface{}{"subjects": len(subs), "specs": len(c09specs), "layers": len(disp)}))
+	if c.Case%50 == 0 {
+		opErrArrowProbeC09(c, g)
+	}
+}
+
+// opErrArrowProbeC09: see opErrBothTrees (known finding).
+func opErrArrowProbeC09(c *core.Ctx, g *gen.Gen) {
+	for _, t := range opErrBothTrees(g) {
+		e, _, ok := safeBuild(c, t)
+		if !ok {
+			continue
+		}
+		subs := []subject{{name: "formattable", v: errors.Formattable(e), err: e}}
+		if model.Display(t)[0].IsLib() {
+			subs = append(subs, subject{name: "direct", v: e, err: e})
+		}
+		for _, s := range subs {
+			if p := core.Try(func() {
+				for _, spec := range []string{"%v", "%s", "%q"} {
+					c.Count("operrboth-renderings", 1)
+					got, want := fmt.Sprintf(spec, s.v), fmt.Sprintf(spec, e.Error())
+					if got != want {
+						c.Violate("verb/"+arrowClass(got, want), "a simple verb does not print what fmt prints for the Error() string",
+							fmt.Sprintf("%s\n%s of %s: got %q want %q", t, spec, s.name, trimS(got, 500), trimS(want, 500)))
+					}
+				}
+			}); p != nil {
+				c.Violate("panic/operrboth", "formatting panicked", fmt.Sprintf("%s\n%v", t, p))
+			}
+		}
+	}
 }
 
 func specClass(spec string) string {
